@@ -593,7 +593,9 @@ int tokens_get(AsmContext *asm_context, char *token, int len)
               else
             if (ch1 == '=')
             {
-              token[ptr++] = ch;
+              // "<=" or ">=": the second character is '=', not a repeat
+              // of the first (which spelled them "<<" and ">>").
+              token[ptr++] = ch1;
               token_type = TOKEN_EQUALITY;
             }
               else
